@@ -1289,6 +1289,7 @@ def _zero_on_template(ctx: Ctx) -> None:
     def src(n: ast.AST) -> str:
         return ast.unparse(n).replace(" ", "")
     srcp = sp.params[1]
+    from sa.srcmodel import inline_locals as inline_locals_
     # ---- what each attribute of the space is, in terms of the template
     space_stat: dict[str, tuple] = {}
     for n in ast.walk(sp.node):
@@ -1298,6 +1299,11 @@ def _zero_on_template(ctx: Ctx) -> None:
                     == "self"):
                 continue
             v = n.value
+            while isinstance(v, ast.Call) and src(v.func) in (
+                    "check_int_range", "int") and v.args:
+                v = v.args[0]
+            # hoisted column slices are looked through
+            v = inline_locals_(sp.node, v)
             while isinstance(v, ast.Call) and src(v.func) in (
                     "check_int_range", "int") and v.args:
                 v = v.args[0]
